@@ -22,9 +22,12 @@ def run(cx):
     cx.rule("C04.R3", "table", "Branch::init decision table: needs -> Pending; if false -> Skipped; if true -> Ready; no if & not else -> Skipped; else with siblings -> Pending; lone else -> Ready")
     cx.rule("C04.R4", "K1", "child nodes are scheduled only by a task that is Running")
     c20.r2(cx, "C04.R1")
+    r1_links(cx)
     r2(cx)
     r3(cx)
     r4(cx)
+    cx.rule("C04.R5", "table", "Task::is_ready: a needs-branch waits for a terminal needed sibling; an else branch runs iff all siblings are Skipped and gives up iff one of them ran")
+    r5_is_ready(cx)
 
 
 def r2(cx):
@@ -287,3 +290,179 @@ def r4(cx):
         ok = states <= {"Running"}
         cx.ob("C04.R4", "children:%s" % f.short, ok, "`%s` schedules child nodes only while its task is Running (states seen: %s)" % (f.short, sorted(str(s) for s in states)), f.loc(b))
     cx.floor("C04.R4", 4)
+
+
+# ------------------------------------------------------------------------------------------------
+def closure_state_outcomes(m, tables, g):
+    """for a closure `|t| <predicate over t.state()>`: {state: 'T' | 'F' | 'M'} - whether it returns true,
+    false, or something that depends on other data, when the state read inside has that value"""
+    from vlib.valreach import blocks_by_value
+    from vlib.enumfn import TASK_STATE
+    byv = blocks_by_value(m, tables, g, r"process::task::Task::state$", TASK_STATE)
+    trues = [bi for bi, b in enumerate(g.blocks) for s in b["s"] if s[0] == "A" and s[1][0] == 0 and not s[1][1] and s[2][0] == "use" and s[2][1][0] == "k" and s[2][1][1].get("int") == "1"]
+    falses = [bi for bi, b in enumerate(g.blocks) for s in b["s"] if s[0] == "A" and s[1][0] == 0 and not s[1][1] and s[2][0] == "use" and s[2][1][0] == "k" and s[2][1][1].get("int") == "0"]
+    calls = [bi for bi, b in enumerate(g.blocks) if b["t"][0] == "call" and b["t"][3][0] == 0 and not b["t"][3][1]]
+    out = {}
+    for v, blocks in byv.items():
+        t = any(b in blocks for b in trues)
+        f = any(b in blocks for b in falses)
+        res = None
+        for b in calls:
+            if b in blocks:
+                q = g.blocks[b]["t"][1].get("q") or ""
+                mm = T.STATE_PRED.match(q)
+                if mm:
+                    val = tables[mm.group(1)][v]
+                    t = t or val
+                    f = f or (not val)
+                else:
+                    res = "M"
+        out[v] = res or ("M" if (t and f) else ("T" if t else "F"))
+    return out
+
+
+def r5_is_ready(cx):
+    m = cx.m
+    pa = Prov(m, "alias")
+    _, tables = engine(cx)
+    f = m.one(r"^%s::is_ready$" % TASK)
+    clos = {g.q: g for g in m.fns.values() if g.q.startswith(f.q + "::{closure")}
+
+    def closure_arg(c):
+        for a in c.args[1:]:
+            r = pa.root(f, a)
+            if r[0] == "closure" and r[1] in clos:
+                return clos[r[1]]
+        return None
+
+    def over_siblings(c):
+        r = pa.root(f, c.args[0])
+        n = 0
+        while r[0] == "call" and n < 6:
+            if r[1].endswith("Task::siblings"):
+                return True
+            cc = Call(f, r[2])
+            if not cc.args:
+                return False
+            r = pa.root(f, cc.args[0])
+            n += 1
+        return False
+
+    true_rets = [bi for bi, b in enumerate(f.blocks) for s in b["s"] if s[0] == "A" and s[1][0] == 0 and not s[1][1] and s[2][0] == "use" and s[2][1][0] == "k" and s[2][1][1].get("int") == "1"]
+    # ---- needs ---------------------------------------------------------------------------------------
+    filt = [c for c in f.calls() if re.search(r"Iterator>::filter$|Iterator::filter$", c.q)]
+    cnt = [c for c in f.calls() if re.search(r"Iterator>::count$|Iterator::count$", c.q)]
+    ok = False
+    detail = {}
+    if len(filt) == 1 and len(cnt) == 1 and over_siblings(filt[0]):
+        g = closure_arg(filt[0])
+        if g is not None:
+            oc = closure_state_outcomes(m, tables, g)
+            detail = {"closure": {k: v for k, v in oc.items()}}
+            needs_ok = all(oc[s] == "F" for s in T.STATES if s not in T.TERMINAL) and all(oc[s] in ("M", "T") for s in T.TERMINAL)
+            contains = any(c.q.endswith("::contains") for c in g.calls())
+            # return true under count > 0
+            gt = False
+            for tb in true_rets:
+                for gd in guards_of(m, f, tb, mode="value"):
+                    r = gd.root
+                    if r[0] == "bin" and r[1] in ("Gt", "Ge", "Ne") and gd.truth is True and r[2] == ("call", cnt[0].q, cnt[0].b, ()):
+                        k = r[3]
+                        gt = (r[1] == "Gt" and k[0] == "const" and k[1].get("int") == "0") or (r[1] == "Ge" and k[0] == "const" and k[1].get("int") == "1") or (r[1] == "Ne" and k[0] == "const" and k[1].get("int") == "0")
+            ok = needs_ok and contains and gt
+    cx.ob("C04.R5", "is_ready:needs", ok, "a needs-branch is ready iff at least one sibling that is terminal and listed in `needs` exists", f.loc(), **detail)
+    # ---- else ------------------------------------------------------------------------------------------
+    allc = [c for c in f.calls() if re.search(r"Iterator>::all$|Iterator::all$", c.q)]
+    anyc = [c for c in f.calls() if re.search(r"Iterator>::any$|Iterator::any$", c.q)]
+    ok_all = False
+    if len(allc) == 1 and over_siblings(allc[0]):
+        g = closure_arg(allc[0])
+        if g is not None:
+            oc = closure_state_outcomes(m, tables, g)
+            tset = {s for s, v in oc.items() if v == "T"}
+            ready_ret = any(any(gd.root == ("call", allc[0].q, allc[0].b, ()) and gd.truth is True for gd in guards_of(m, f, tb, mode="alias")) for tb in true_rets)
+            ok_all = tset == {"Skipped"} and all(v in ("T", "F") for v in oc.values()) and ready_ret
+    cx.ob("C04.R5", "is_ready:else-runs", ok_all, "an else branch is ready iff every sibling is Skipped", allc[0].loc if allc else f.loc())
+    ok_any = False
+    if len(anyc) == 1 and over_siblings(anyc[0]):
+        g = closure_arg(anyc[0])
+        skips = [c for c in f.calls() if c.q == T.Q_SET_STATE and pa.root(f, c.args[1])[0] == "agg" and pa.root(f, c.args[1])[2] == "Skipped"]
+        if g is not None and len(skips) == 1:
+            oc = closure_state_outcomes(m, tables, g)
+            tset = {s for s, v in oc.items() if v == "T"}
+            guarded = any(gd.root == ("call", anyc[0].q, anyc[0].b, ()) and gd.truth is True for gd in guards_of(m, f, skips[0].b, mode="alias"))
+            ok_any = tset <= (T.TERMINAL - {"Skipped"}) and tset >= {"Completed", "Error", "Aborted"} and guarded
+    cx.ob("C04.R5", "is_ready:else-skipped", ok_any, "an else branch gives up (Skipped) exactly when some sibling ran: completed, failed or was aborted - never because of a skipped or still open sibling", anyc[0].loc if anyc else f.loc())
+    # both under `else` and without needs
+    cx.floor("C04.R5", 3)
+
+
+def r1_links(cx):
+    """link discipline of the builders: a node of the same level as `prev` becomes prev's next, otherwise it is
+    attached to its parent; `prev` then moves on to the new node"""
+    m = cx.m
+    pa = Prov(m, "alias")
+    for fname in ("build_step", "build_act", "dyn_build_act"):
+        f = m.one(r"^acts::scheduler::tree::build::%s$" % fname)
+        sn = [c for c in f.calls() if c.q.endswith("Node::set_next")]
+        sp = [c for c in f.calls() if re.search(r"Node::set_parent(_in)?$", c.q)]
+        mk = [c for c in f.calls() if c.q.endswith("NodeTree::make") or c.q.endswith("Node::append_node")]
+        if not mk:
+            raise Anchor("%s: node creation not found" % fname)
+        node = ("call", mk[0].q, mk[0].b)
+        seq_next = None
+        for c in sn:
+            recv = pa.root(f, c.args[0])
+            arg = pa.root(f, c.args[1])
+            # prev.set_next(&node, true)
+            if recv[0] == "param" and recv[2] == "prev" and _is_node(f, pa, arg, mk[0]):
+                for gd in guards_of(m, f, c.b, mode="value"):
+                    r = gd.root
+                    if r[0] == "bin" and r[1] == "Eq" and gd.truth is True and {_fld(r[2]), _fld(r[3])} == {"level"}:
+                        seq_next = c
+        par = None
+        for c in sp:
+            recv = pa.root(f, c.args[0])
+            if _is_node(f, pa, recv, mk[0]):
+                for gd in guards_of(m, f, c.b, mode="value"):
+                    r = gd.root
+                    if r[0] == "bin" and r[1] == "Eq" and gd.truth is False and {_fld(r[2]), _fld(r[3])} == {"level"}:
+                        par = c
+        cx.ob("C04.R1", "%s:link" % fname, seq_next is not None and par is not None,
+              "`%s`: a node on the level of `prev` becomes `prev.next`, otherwise it is attached to its parent" % fname, mk[0].loc)
+        # prev moves on
+        moved = False
+        for bi, b in enumerate(f.blocks):
+            for s in b["s"]:
+                if s[0] == "A" and s[1][1] == ["*"] and pa.root_place(f, s[1][0], [])[0] == "param" and f.names.get(s[1][0]) == "prev" and s[2][0] == "use":
+                    src = pa.root(f, s[2][1])
+                    if _is_node(f, pa, src, mk[0]) or (src[0] == "call" and (Call(f, src[2]).callee.get("decl") or "") == "std::clone::Clone::clone"):
+                        moved = True
+        cx.ob("C04.R1", "%s:prev-advances" % fname, moved, "`%s` makes the new node the `prev` of the next sibling" % fname, mk[0].loc)
+
+
+def _fld(r):
+    if r[0] in ("param", "call", "local"):
+        return r[3][-1] if r[3] else None
+    if r[0] == "field":
+        return r[2][-1] if r[2] else None
+    return None
+
+
+def _is_node(f, pa, r, mk):
+    n = 0
+    while n < 5:
+        if r[0] == "call" and r[2] == mk.b:
+            return True
+        if r[0] == "call":
+            c = Call(f, r[2])
+            if T.TRY_BRANCH.search(r[1]) and c.args:
+                r = pa.root(f, c.args[0])
+                n += 1
+                continue
+            if (c.callee.get("decl") or "") in ("std::ops::Deref::deref", "std::clone::Clone::clone") and c.args:
+                r = pa.root(f, c.args[0])
+                n += 1
+                continue
+        return False
+    return False
